@@ -48,7 +48,9 @@ RULE = ("complete enumeration of the catalogues: every name of get_state_names_*
         "3-qubit gates on a contiguous and on a gapped composite system, and the effective-Lindbladian forms of every gate "
         "name; two-base 2-qutrit gate names: ~600 stratified by (axis pattern, angle) of both components in quick, all 39,006 "
         "in thorough; every name additionally with all its single-edit misspellings (drop / duplicate / swap a character, "
-        "wrong case) and on every composite system of another size.  A case is distinct by (catalogue, name, form, ids, "
+        "wrong case; gate names: every misspelling with 1-2 of the 7 forms in rotation and the first three with all forms; "
+        "two-base names: 3 misspellings in quick, 1 in thorough) and on composite systems of another size (all four other "
+        "systems; 2-qutrit gate names: one other system per name, two-base names every 5th / 10th name).  A case is distinct by (catalogue, name, form, ids, "
         "system) and every case is non-trivial (each is a different catalogue entry or a different non-entry)")
 ANCHORS = [
     "quara/objects/state_typical.py:generate_state_from_name",
@@ -94,8 +96,13 @@ ASSUMPTIONS = [
     "each shard (quara's own verdict costs 3.4 s per object and belongs to C18); physicality is judged by the reference",
     "for 2-qutrit gates the reference physicality sizes are computed by a vectorised transcription of qv.ref that is "
     "cross-checked against qv.ref on the first objects of every shard",
+    "effective Lindbladians are judged physical by the GKSL structure derived independently: Tr L(X) = 0 for all X and "
+    "conditional complete positivity (1-|W><W|) Choi(L) (1-|W><W|) >= 0 with Hermiticity preservation; the criterion is "
+    "self-tested per system on a random GKSL generator (accepted) and on one with the dissipator negated (rejected)",
+    "the outcome order of the POVM 'bell' is undocumented: the order of the state catalogue (phi+, phi-, psi+, psi-) is taken",
 ]
 TOLP, TOLF = 1e-11, 1e-8
+TOLP_EXP = 1e-10     # oracles through scipy expm of an 81x81 generator (worst seen on the unchanged tree: 2e-13)
 
 # ===================================================================== textbook table (never imports quara)
 
@@ -1072,8 +1079,12 @@ def do_mprocess(R, name):
             # the same instrument with its outcomes in another order is a different mechanism from a wrong instrument
             best = min(max(err(got[p[i]], hs_t[i]) for i in range(len(got))) for p in itertools.permutations(range(len(got))))
             if e >= TOLF and best <= TOLP:
-                ctx.truth("textbook", False, key=f"{cat}:{name}:outcome-order-vs-docstring",
-                          info=dict(info, note="instrument equals the documented one up to a permutation of the outcomes"))
+                # The outcome order of an instrument is a labelling convention; the only source for it is a docstring
+                # (bell-type1 documents Psi+,Psi-,Phi+,Phi- while the code and the POVM catalogue entry `bell` use
+                # Phi+,Phi-,Psi+,Psi-).  A docstring is not one of the alternative descriptions the statement compares:
+                # recorded, not judged; the order is still pinned by cross-form[instrument-povm-vs-povm-catalogue].
+                ctx.count(f"recorded-not-judged:{cat}:{name}:outcome-order-differs-from-docstring")
+                ctx.skip("textbook")
             else:
                 R.num("textbook", e, f"{cat}:{name}:textbook[mprocess]", info)
         # POVM of the instrument == POVM catalogue entry of the same base name, in the same order
@@ -1238,10 +1249,10 @@ def do_gate(R, S, name, ids, forms, el_forms, el_phys=True, maps=True, dims_arg=
 
         ex = expm(np.asarray(lh, dtype=float) if not np.iscomplexobj(lh) else lh)
         v = S.gate_viol(ex)
-        R.num("physical", max(v["eq"], v["ineq"]), f"{ecat}:{tag}:expm(L)-not-physical", dict(info, sizes=v))
+        ctx.num("physical", max(v["eq"], v["ineq"]), TOLP_EXP, TOLF, key=f"{ecat}:{tag}:expm(L)-not-physical", info=dict(info, sizes=v))
         if hs_cat is not None:
-            R.num("expmL-vs-gate", err(ex, hs_cat), f"{ecat}:{tag}:expm(L)-vs-gate-of-the-same-name", info)
-        R.num("textbook", err(ex, hs_t), f"{ecat}:{tag}:textbook", dict(info, form="expm(L)"))
+            ctx.num("expmL-vs-gate", err(ex, hs_cat), TOLP_EXP, TOLF, key=f"{ecat}:{tag}:expm(L)-vs-gate-of-the-same-name", info=info)
+        ctx.num("textbook", err(ex, hs_t), TOLP_EXP, TOLF, key=f"{ecat}:{tag}:textbook", info=dict(info, form="expm(L)"))
     # ---- named gates map named states as the table says (catalogue gate on catalogue states)
     if maps and g is not None:
         n_hit = 0
